@@ -98,3 +98,16 @@ def split_rows(X, parts):
         out.append(X[i:i + p])
         i += p
     return out
+
+
+def layouts(X):
+    """The same float64 VALUES in other containers / memory layouts: Fortran order, a strided (non-contiguous) view, a read-only array
+    (a caller may hand over memory the package must not write to), nested lists."""
+    import numpy as np
+    X = np.asarray(X, dtype=float)
+    ro = X.copy()
+    ro.setflags(write=False)
+    out = [("fortran-order", np.asfortranarray(X)), ("strided-view", np.repeat(X, 2, axis=0)[::2]), ("read-only", ro), ("nested-lists", X.tolist())]
+    if X.ndim == 2 and X.shape[1] >= 2:
+        out.append(("column-strided-view", np.repeat(X, 2, axis=1)[:, ::2]))
+    return out
